@@ -153,6 +153,17 @@ def hiw_file(n=6):
     out = f"{BUILD}/gen/hiw.json"
     if os.path.exists(out):
         return out
+    with _HIW_LOCK:
+        return _hiw_generate(out, n)
+
+
+import threading
+_HIW_LOCK = threading.Lock()
+
+
+def _hiw_generate(out, n):
+    if os.path.exists(out):
+        return out
     import random
     q = 0xB640000002A3A6F1D603AB4FF58EC74521F2934B1A7AEEDBE56F9B27E351457D
     R = 1 << 256
@@ -169,8 +180,10 @@ def hiw_file(n=6):
         if (t + m * q) >> 256 >= R + q:
             found.append(list(w1.to_bytes(32, "big") + w0.to_bytes(32, "big")))   # Fq2 byte order: imaginary part first
     os.makedirs(f"{BUILD}/gen", exist_ok=True)
-    json.dump({"w": found, "trials": trials}, open(out + ".tmp", "w"))
-    os.replace(out + ".tmp", out)
+    tmp = f"{out}.{os.getpid()}.tmp"
+    with open(tmp, "w") as f:
+        json.dump({"w": found, "trials": trials}, f)
+    os.replace(tmp, out)
     log(f"[gen] hiw.json: {len(found)} elements in {trials} trials, {time.time() - t0:.1f}s")
     return out
 
